@@ -263,6 +263,58 @@ Proof.
   rewrite Hx, IH by (intros; apply H; right; assumption). reflexivity.
 Qed.
 
+Lemma Aff_remove_app c name : Acct c -> Aff c -> Aff (remove_app c name).
+Proof.
+  intros HA HF.
+  pose proof (Acct_remove_app c name HA) as HA'.
+  unfold remove_app in *. destruct (get_app name (c_apps c)) as [a|] eqn:Ea; [|exact HF].
+  set (c1 := match a_server a with
+             | Some sn => if is_member c sn then srv_remove c sn name else c
+             | None => c
+             end) in *.
+  assert (H1 : AA c1).
+  { subst c1. destruct (a_server a) as [sn|]; [|split; assumption]. destruct (is_member c sn); [|split; assumption].
+    split; [apply Acct_srv_remove; exact HA|eapply Aff_psteps; [apply srv_remove_ps|exact HF]]. }
+  destruct H1 as [HA1 HF1].
+  assert (Hfree : forall k s, get_srv k (c_servers c1) = Some s -> ~ In name (s_apps s)).
+  { intros k s Hg Hin. destruct (ac_listed _ HA1 _ _ _ Hg Hin) as (a1 & Ha1 & Hsv1).
+    subst c1. destruct (a_server a) as [sn|] eqn:Esv.
+    - unfold is_member in *. destruct (get_srv sn (c_servers c)) as [s0|] eqn:Es.
+      + destruct (srv_remove_app_server c sn name a s0 HA Ea Esv Es) as (a' & Ha' & Hn'). rewrite Ha' in Ha1.
+        inversion Ha1; subst. congruence.
+      + rewrite Ea in Ha1. inversion Ha1; subst a1. rewrite Esv in Hsv1. inversion Hsv1; subst. rewrite Es in Hg. discriminate.
+    - rewrite Ea in Ha1. inversion Ha1; subst a1. congruence. }
+  set (c2 := match a_alloc a with Some (l0, p0) => upd_alloc c1 l0 p0 (alloc_del_app name) | None => c1 end) in *.
+  assert (E2 : c_servers c2 = c_servers c1 /\ c_apps c2 = c_apps c1).
+  { subst c2. destruct (a_alloc a) as [[l0 p0]|]; [|auto]. unfold upd_alloc, ensure_part. destruct (aget l0 (c_parts c1)); auto. }
+  destruct E2 as (E2s & E2a).
+  assert (HF2 : Aff c2) by (eapply Aff_ext; [exact E2s|exact E2a|exact HF1]).
+  pose proof (Aff_release c2 name HF2) as HF3.
+  assert (Es3 : c_servers (release_identity c2 name) = c_servers c2).
+  { unfold release_identity. destruct (get_app name (c_apps c2)) as [x|]; [|reflexivity].
+    destruct (group_of c2 x) as [[g grp]|]; [|reflexivity]. destruct (a_identity x); reflexivity. }
+  destruct HF3 as [A1 A2 A3].
+  assert (Hnd3 : NoDup (map a_name (c_apps (release_identity c2 name)))).
+  { unfold release_identity. destruct (get_app name (c_apps c2)) as [x|]; [|rewrite E2a; exact (ac_app_names _ HA1)].
+    destruct (group_of c2 x) as [[g grp]|]; [|rewrite E2a; exact (ac_app_names _ HA1)].
+    destruct (a_identity x); [|rewrite E2a; exact (ac_app_names _ HA1)].
+    cbn [c_upd_app c_apps set]. rewrite upd_app_names by reflexivity. rewrite E2a. exact (ac_app_names _ HA1). }
+  constructor; cbn [c_servers c_apps set].
+  + intros n s aff Hg. rewrite (A1 _ _ aff Hg). symmetry. apply count_aff_ext. intros m Hin.
+    rewrite get_app_del by exact Hnd3. destruct (Z.eqb_spec m name) as [->|Hne]; [|reflexivity].
+    exfalso. rewrite Es3, E2s in Hg. eapply Hfree; eassumption.
+  + intros n1 n2 b1 b2 Hb1 Hb2. rewrite get_app_del in Hb1, Hb2 by exact Hnd3.
+    destruct (Z.eqb n1 name); [discriminate|]. destruct (Z.eqb n2 name); [discriminate|]. eapply A2; eassumption.
+  + intros n s m b L Hg Hin Hb. rewrite get_app_del in Hb by exact Hnd3. destruct (Z.eqb m name); [discriminate|]. eapply A3; eassumption.
+Qed.
+
+Lemma Aff_force_identity c an i : Aff c -> Aff (force_identity c an i).
+Proof.
+  unfold force_identity. destruct i as [i|]; [|tauto]. destruct (get_app an (c_apps c)) as [a|]; [|tauto].
+  destruct (group_of c a) as [[g grp]|]; [|tauto].
+  intros H. apply Aff_upd_app_eqa; [intros x; repeat split|]. revert H. apply Aff_ext; reflexivity.
+Qed.
+
 Theorem AA_step c o : wf_op c o -> wf_op_aff c o -> AA c -> AA (step c o).
 Proof.
   intros Hwf Hwa [HA HF]. split; [apply Acct_step; assumption|].
@@ -320,47 +372,7 @@ Proof.
       apply E.
       * rewrite (proj1 (Heg _ _)). cbn [c_servers set]. apply (proj1 (Hua _ _ _ _)).
       * rewrite (proj2 (Heg _ _)). cbn [c_apps set]. rewrite (proj2 (Hua _ _ _ _)). reflexivity.
-  - (* ORemoveApp *)
-    pose proof (Acct_remove_app c name HA) as HA'.
-    unfold remove_app in *. destruct (get_app name (c_apps c)) as [a|] eqn:Ea; [|exact HF].
-    set (c1 := match a_server a with
-               | Some sn => if is_member c sn then srv_remove c sn name else c
-               | None => c
-               end) in *.
-    assert (H1 : AA c1).
-    { subst c1. destruct (a_server a) as [sn|]; [|split; assumption]. destruct (is_member c sn); [|split; assumption].
-      split; [apply Acct_srv_remove; exact HA|eapply Aff_psteps; [apply srv_remove_ps|exact HF]]. }
-    destruct H1 as [HA1 HF1].
-    assert (Hfree : forall k s, get_srv k (c_servers c1) = Some s -> ~ In name (s_apps s)).
-    { intros k s Hg Hin. destruct (ac_listed _ HA1 _ _ _ Hg Hin) as (a1 & Ha1 & Hsv1).
-      subst c1. destruct (a_server a) as [sn|] eqn:Esv.
-      - unfold is_member in *. destruct (get_srv sn (c_servers c)) as [s0|] eqn:Es.
-        + destruct (srv_remove_app_server c sn name a s0 HA Ea Esv Es) as (a' & Ha' & Hn'). rewrite Ha' in Ha1.
-          inversion Ha1; subst. congruence.
-        + rewrite Ea in Ha1. inversion Ha1; subst a1. rewrite Esv in Hsv1. inversion Hsv1; subst. rewrite Es in Hg. discriminate.
-      - rewrite Ea in Ha1. inversion Ha1; subst a1. congruence. }
-    set (c2 := match a_alloc a with Some (l0, p0) => upd_alloc c1 l0 p0 (alloc_del_app name) | None => c1 end) in *.
-    assert (E2 : c_servers c2 = c_servers c1 /\ c_apps c2 = c_apps c1).
-    { subst c2. destruct (a_alloc a) as [[l0 p0]|]; [|auto]. unfold upd_alloc, ensure_part. destruct (aget l0 (c_parts c1)); auto. }
-    destruct E2 as (E2s & E2a).
-    assert (HF2 : Aff c2) by (eapply Aff_ext; [exact E2s|exact E2a|exact HF1]).
-    pose proof (Aff_release c2 name HF2) as HF3.
-    assert (Es3 : c_servers (release_identity c2 name) = c_servers c2).
-    { unfold release_identity. destruct (get_app name (c_apps c2)) as [x|]; [|reflexivity].
-      destruct (group_of c2 x) as [[g grp]|]; [|reflexivity]. destruct (a_identity x); reflexivity. }
-    destruct HF3 as [A1 A2 A3].
-    assert (Hnd3 : NoDup (map a_name (c_apps (release_identity c2 name)))).
-    { unfold release_identity. destruct (get_app name (c_apps c2)) as [x|]; [|rewrite E2a; exact (ac_app_names _ HA1)].
-      destruct (group_of c2 x) as [[g grp]|]; [|rewrite E2a; exact (ac_app_names _ HA1)].
-      destruct (a_identity x); [|rewrite E2a; exact (ac_app_names _ HA1)].
-      cbn [c_upd_app c_apps set]. rewrite upd_app_names by reflexivity. rewrite E2a. exact (ac_app_names _ HA1). }
-    constructor; cbn [c_servers c_apps set].
-    + intros n s aff Hg. rewrite (A1 _ _ aff Hg). symmetry. apply count_aff_ext. intros m Hin.
-      rewrite get_app_del by exact Hnd3. destruct (Z.eqb_spec m name) as [->|Hne]; [|reflexivity].
-      exfalso. rewrite Es3, E2s in Hg. eapply Hfree; eassumption.
-    + intros n1 n2 b1 b2 Hb1 Hb2. rewrite get_app_del in Hb1, Hb2 by exact Hnd3.
-      destruct (Z.eqb n1 name); [discriminate|]. destruct (Z.eqb n2 name); [discriminate|]. eapply A2; eassumption.
-    + intros n s m b L Hg Hin Hb. rewrite get_app_del in Hb by exact Hnd3. destruct (Z.eqb m name); [discriminate|]. eapply A3; eassumption.
+  - (* ORemoveApp *) apply Aff_remove_app; assumption.
   - apply Aff_upd_app_eqa; [intros x; repeat split|exact HF].
   - apply Aff_upd_app_eqa; [intros x; repeat split|exact HF].
   - apply Aff_upd_app_eqa; [intros x; repeat split|exact HF].
@@ -371,6 +383,12 @@ Proof.
   - unfold remove_group. destruct (aget name (c_groups c)); [|exact HF]. destruct (existsb _ _); revert HF; apply Aff_ext; reflexivity.
   - revert HF; apply Aff_ext; reflexivity.
   - pose proof (Aff_schedule c choices HF) as H. destruct (schedule c choices) as [[c' qs] pl]. exact H.
+  - (* ORestore *)
+    unfold restore_op. destruct (get_app aname (c_apps c)) as [a|]; [|exact HF].
+    pose proof (Acct_psteps _ _ (restore_put_ps c sname aname verbatim expires) HA) as HA1.
+    pose proof (Aff_psteps _ _ (restore_put_ps c sname aname verbatim expires) HF) as HF1.
+    destruct (restore_put c sname aname verbatim expires) as [c1 ok]. cbn [fst] in HA1, HF1.
+    destruct ok; [apply Aff_force_identity; exact HF1|]. destruct (a_once a); [apply Aff_remove_app; assumption|exact HF1].
 Qed.
 
 Fixpoint wf_ops_aff (c : cell) (ops : list op) : Prop :=
